@@ -101,16 +101,19 @@ Fixpoint run_conv (ta tb : transport) (msgs : list (bool * Noise.bytes)) : list 
 
 (** the receiver alone on an arbitrary (possibly corrupted) frame: "OK len body" or where it fails *)
 Definition recv_frame (t : transport) (c : Noise.bytes) : list string :=
-  match dec_header i_hkdf2 i_open t (firstn 18 c) with
-  | None => ["HDR-ERR"]
-  | Some (len, t1) =>
-    if len <? MIN_MSG_LEN then ["SHORT"]
-    else
-      match dec_body i_open t1 (firstn (Z.to_nat len + 16) (skipn 18 c)) with
-      | None => ["BODY-ERR"]
-      | Some (m, _) => ["OK"; hx m]
-      end
-  end.
+  if (length c <? 18)%nat then ["TOO-SHORT"]
+  else
+    match dec_header i_hkdf2 i_open t (firstn 18 c) with
+    | None => ["HDR-ERR"]
+    | Some (len, t1) =>
+      if len <? MIN_MSG_LEN then ["SHORT"]
+      else if (length c <? 18 + Z.to_nat len + 16)%nat then ["TOO-SHORT"]
+      else
+        match dec_body i_open t1 (firstn (Z.to_nat len + 16) (skipn 18 c)) with
+        | None => ["BODY-ERR"]
+        | Some (m, _) => ["OK"; hx m]
+        end
+    end.
 
 (** ** the PeerManager reader on real bytes *)
 Definition show_event (e : event) : string :=
